@@ -86,6 +86,13 @@ fn parse_ops(s: &str) -> Vec<Op> {
 
 /// runs one sequence; returns the first violated statement
 pub fn run_seq(cfg: Cfg, ops: &[Op], prop: &str) -> Option<(String, String)> {
+    // only AdvTooFar is documented to panic (and is caught where it is issued): any other panic is a wrong answer
+    match catch_unwind(AssertUnwindSafe(|| run_seq_inner(cfg, ops, prop))) {
+        Ok(r) => r,
+        Err(p) => Some(("C02 an operation within its documented domain returns instead of panicking".into(), format!("panic: {}", panic_msg(p)))),
+    }
+}
+fn run_seq_inner(cfg: Cfg, ops: &[Op], prop: &str) -> Option<(String, String)> {
     {
         let mut codes = [0u8; 64];
         for (i, o) in ops.iter().take(64).enumerate() {
@@ -106,9 +113,17 @@ pub fn run_seq(cfg: Cfg, ops: &[Op], prop: &str) -> Option<(String, String)> {
     let (src, m) = Src::new(&d, cfg.sched);
     let mut reader = match cfg.bufreader {
         Some(cap) => {
-            let mut br = BufReader::with_capacity(cap, src);
-            let _ = br.fill_buf();
-            DeferredReader::from_buf_reader(br)
+            // cap >= 1000: a BufReader of capacity cap - 1000 that has not been used yet (nothing buffered)
+            let mut br = BufReader::with_capacity(cap % 1000, src);
+            if cap < 1000 {
+                let _ = br.fill_buf();
+            }
+            let calls_before = m.calls.get();
+            let r = DeferredReader::from_buf_reader(br);
+            if c09 && m.calls.get() != calls_before {
+                return Some(("C09 no read without a refill request".into(), format!("from_buf_reader called the source {} time(s) while the reader was built", m.calls.get() - calls_before)));
+            }
+            r
         }
         None => DeferredReader::from_read(src),
     };
@@ -276,6 +291,11 @@ pub fn configs() -> Vec<Cfg> {
         v.push(Cfg { len: 24, sched: Sched { chunk: 4, mode: Mode::Step(100), fail_at: Some((9, 0)), interrupt: 0 }, bufreader: Some(cap) });
     }
     v.push(Cfg { len: 0, sched: Sched { chunk: 4, mode: Mode::Step(100), fail_at: None, interrupt: 0 }, bufreader: None });
+    // a BufReader that was wrapped around the source but not used yet, over sources that deliver, end or fail at once
+    for &fail_at in &[None, Some((0usize, 1usize)), Some((7, 0))] {
+        v.push(Cfg { len: 24, sched: Sched { chunk: 2, mode: Mode::Step(3), fail_at, interrupt: 0 }, bufreader: Some(1005) });
+    }
+    v.push(Cfg { len: 0, sched: Sched { chunk: 4, mode: Mode::Step(100), fail_at: None, interrupt: 0 }, bufreader: Some(1005) });
     v
 }
 fn cfg_args(c: &Cfg) -> Vec<String> {
